@@ -257,6 +257,82 @@ theorem inactive_prob_zero (t : Trans) (a : List Nat) (i : Nat) (ha : t.active =
     prob t i = 0 := by
   simp [prob, ha, hi]
 
+/-! ### the active set is a function of the trigger-call history; probabilities have no memory -/
+
+/-- `set_active` / `set_inactive` in terms of membership -/
+theorem setActive_mem (t t' : Trans) (a idx : List Nat) (i : Nat) (ha : t.active = some a)
+    (h : t.setActive idx = .ok t') : ∃ a', t'.active = some a' ∧ (a'.contains i = (a.contains i || idx.contains i)) := by
+  unfold Trans.setActive at h
+  rw [ha] at h
+  cases h
+  refine ⟨_, rfl, ?_⟩
+  by_cases h1 : i ∈ a <;> by_cases h2 : i ∈ idx <;> simp [h1, h2]
+
+theorem setInactive_mem (t t' : Trans) (a idx : List Nat) (i : Nat) (ha : t.active = some a)
+    (h : t.setInactive idx = .ok t') : ∃ a', t'.active = some a' ∧ (a'.contains i = (a.contains i && !idx.contains i)) := by
+  unfold Trans.setInactive at h
+  rw [ha] at h
+  cases h
+  refine ⟨_, rfl, ?_⟩
+  by_cases h1 : i ∈ a <;> by_cases h2 : i ∈ idx <;> simp [h1, h2]
+
+/-- **history.** After any sequence of `set_active` / `set_inactive` calls a simulant is active iff the LAST
+call that mentioned it was a `set_active` (or none mentioned it and it was active to begin with) – whatever
+else happened in between. -/
+theorem active_after_history (ops : List (Bool × List Nat)) (a : List Nat) (i : Nat) :
+    (activeAfter a ops).contains i =
+      ops.foldl (fun b op => if op.2.contains i then op.1 else b) (a.contains i) := by
+  induction ops generalizing a with
+  | nil => rfl
+  | cons op ops ih =>
+    obtain ⟨on, s⟩ := op
+    cases on with
+    | true =>
+      simp only [activeAfter, List.foldl_cons]
+      rw [ih]
+      congr 1
+      by_cases h1 : i ∈ a <;> by_cases h2 : i ∈ s <;> simp [h1, h2]
+    | false =>
+      simp only [activeAfter, List.foldl_cons]
+      rw [ih]
+      congr 1
+      by_cases h1 : i ∈ a <;> by_cases h2 : i ∈ s <;> simp [h1, h2]
+
+/-- **no memory.** The vector `Transition.probability(index)` returns is determined by the probability
+function, the index and the CURRENT membership in the active set: two transitions (or the same transition at
+two moments, whatever was evaluated or called before) whose active sets have the same members give the same
+vector. -/
+theorem probability_current_only (t t' : Trans) (a a' : List Nat) (index : List Nat)
+    (hw : t.w = t'.w) (ha : t.active = some a) (ha' : t'.active = some a')
+    (hsame : ∀ i ∈ index, a.contains i = a'.contains i) :
+    probability t index = probability t' index := by
+  rw [probability_eq, probability_eq]
+  apply List.map_congr_left
+  intro i hi
+  simp only [prob, ha, ha', hw, hsame i hi]
+
+/-- a simulant just deactivated has probability 0 at the next evaluation, a simulant just activated its own
+probability – on whichever index the transition was evaluated before. -/
+theorem deactivated_prob_zero (t t' : Trans) (idx : List Nat) (i : Nat) (hi : i ∈ idx)
+    (h : t.setInactive idx = .ok t') : prob t' i = 0 := by
+  unfold Trans.setInactive at h
+  cases ha : t.active with
+  | none => rw [ha] at h; cases h
+  | some a =>
+    rw [ha] at h
+    cases h
+    simp [prob, hi]
+
+theorem activated_prob_own (t t' : Trans) (idx : List Nat) (i : Nat) (hi : i ∈ idx)
+    (h : t.setActive idx = .ok t') : prob t' i = t.w.getD i 0 := by
+  unfold Trans.setActive at h
+  cases ha : t.active with
+  | none => rw [ha] at h; cases h
+  | some a =>
+    rw [ha] at h
+    cases h
+    by_cases h1 : i ∈ a <;> simp [prob, hi, h1]
+
 /-- **a probability-0 transition (weight 0, or triggered and inactive for this simulant) is never the one
 decided – GIVEN a positive draw or a positive first weight.** The full statement (no hypothesis on the
 draw) is false of `_choice`: `draws > p_bins` counts no bin for a draw of exactly 0, so a leading zero
@@ -553,6 +629,10 @@ example : Lands demo 0 3 :=
   Lands.through 0 { out := 2, w := [4, 0, 16, 16, 0], active := some [0, 2] } 3 (by decide) (by decide)
     (Lands.direct 2 { out := 3, w := [16, 16, 16, 16, 16] } (by decide) (by decide))
 example : prob { out := 2, w := [4, 0, 16, 16, 0], active := some [0, 2] } 3 = 0 := by decide
+-- evaluate, deactivate 2, evaluate the SAME index again: simulant 2 now has probability 0
+example : activeAfter [] [(true, [1, 2, 3]), (false, [2]), (false, [])] = [1, 3] := by decide
+example : probability { out := 1, w := [16, 16, 16, 16], active := some (activeAfter [] [(true, [1, 2, 3]), (false, [2])]) } [3, 2, 1, 0]
+    = [16, 0, 16, 0] := by decide
 example : normalize 16 true [16, 16] = .error .multipleDefaults := by decide
 example : normalize 16 false [0, 0] = .error .noValidTransition := by decide
 example : normalize 16 true [12, 8] = .error .unnormalised := by decide
